@@ -6,6 +6,7 @@ import NgoVerif.Proofs.C16stm
 import NgoVerif.Proofs.C05sem
 import NgoVerif.Proofs.C10multi
 import NgoVerif.Proofs.C20dom
+import NgoVerif.Proofs.C08impl
 /-!
 # Driver ops that evaluate the *side conditions of the end-to-end theorems* on what the real passes did
 
@@ -21,6 +22,9 @@ import NgoVerif.Proofs.C20dom
 * `(sem_dup_all <canonical aux rule> ((<rule before> <rule after>) …) <context>)` → `(ok <some place> <every placeCheck> <ctxAvoidsCheck> <aux rule> ((<before> <after>) …))`:
   `Proofs.C10multi.placeCheck` for ALL places of use of one factored literal set (hypotheses of `C10_factor_all_*`).
 * `(sem_dom_cond <prog> ((("p" n) "dom") …))` → `(ok <coveredCheck>)`: the hypothesis of `C20_domain_overapproximates`.
+* `(sem_implied_cond <pre> <rule before> <rule after> <post> <rule with body [p literal]> <rule with body [q literal]>)` →
+  `(ok <impliedCheck> <same literals>)`: the hypotheses of `C08_remove_implied_typed` for ONE deletion `cleanup` made:
+  `q` deleted from the rule because of `p`, `pre`/`post` the other statements at that moment.
 * `(sem_okstm <stm>)` → `(ok <okBody>)`: the hypothesis of the `_partial` theorems about `expand_comparisons`.
 * `(sem_unused_cond <prog> "n" k)` → `(ok <every statement stmOk> <Unused n k prog>)`: the hypothesis of
   `C09_removal_sound/complete` for the program `unused` removed the rules of `n/k` from.
@@ -133,6 +137,18 @@ def handleSem : Sexp → Option Sexp
         | _ => none) with
       | some prg, some m => .list [.atom "ok", ofBool (Proofs.C20dom.coveredCheck m prg)]
       | _, _ => .list [.atom "unsupported", .str "program / map"]
+  | .list [.atom "sem_implied_cond", pre, o, u, post, pr, qr] =>
+    some <| match Prog.ofSexp pre, Stm.ofSexp o, Stm.ofSexp u, Prog.ofSexp post, Stm.ofSexp pr, Stm.ofSexp qr with
+      | some pre, some (.rule l c h bb), some (.rule _ _ _ ab), some post,
+        some (.rule _ _ _ [.lit (.pos, .sym (.fn pn pargs false))]), some (.rule _ _ _ [.lit (.pos, .sym (.fn qn qargs false))]) =>
+        let R : Proofs.C08impl.Rewrite :=
+          { pre := pre, post := post, line := l, col := c, head := h, body := ab, pn := pn, pargs := pargs, qn := qn, qargs := qargs }
+        -- `bb` and `q :: ab` have the same literals (hypothesis `hmem` of the theorem)
+        let same := Proofs.C08impl.sameLits bb (R.qLit :: ab)
+        -- the three conjuncts of `impliedCheck` are also reported one by one (coverage statistics of the harness)
+        .list [.atom "ok", ofBool (Proofs.C08impl.impliedCheck R), ofBool same, ofBool (R.src.all Proofs.C08impl.okStm),
+               ofBool (blitMem R.pLit R.body), ofBool (R.src.all (Proofs.C08impl.ruleImplies R.pn R.pargs R.qn R.qargs))]
+      | _, _, _, _, _, _ => .list [.atom "unsupported", .str "rules / literals"]
   | _ => none
 
 end NgoVerif
